@@ -26,7 +26,7 @@ LEVEL = "exploration"
 RULE = ("random hierarchies of 2-5 classes (root decorated; children dataclass or hand-written __init__, decorated or not, "
         "arbitrary parent) and histories of 6-16 operations {new (positional|keyword|defaults), symbolic construction, "
         "rule inference into an unrelated decorated family, clear, query let(T), start a result iterator inside or outside a "
-        "block and resume it right before later constructions, evaluate a query whose @predicate returns the (registered) object itself}; every query result is compared with the "
+        "block and resume it right before later constructions, evaluate a query whose @predicate returns the (registered) object itself, leave a registry query after its first result (close / drop / break), raise from an evaluation inside a symbolic block (handled inside it / leaving it)}; every query result is compared with the "
         "construction log. Non-trivial: a query is asked for a class that has a subclass instance or an inferred "
         "instance in the log and at least one logged instance that must NOT be returned (other branch / cleared). "
         "distinct by structural hash.")
@@ -47,7 +47,7 @@ def plan(tier, seed):
 def floors(tier):
     return {"distinct_nontrivial": 300, "op:new": 3000, "op:sym": 1000, "op:rule": 500, "op:clear": 300, "op:query": 3000,
             "cls:undecorated_subclass": 500, "cls:hand_written": 500, "cls:query_after_clear": 200,
-            "cls:inferred_instances_queried": 60, "op:predq": 300, "cls:live_iterator_started_in": 100, "cls:live_iterator_started_out": 100, "queries_with_subclass_instances": 300}
+            "cls:inferred_instances_queried": 60, "op:predq": 300, "op:abandon": 300, "op:exc": 200, "cls:live_iterator_started_in": 100, "cls:live_iterator_started_out": 100, "queries_with_subclass_instances": 300}
 
 
 def gen_case(rng):
@@ -75,6 +75,10 @@ def gen_case(rng):
             ops.append(["iter", rng.choice(["out", "in"])])
         elif k < 0.80:
             ops.append(["predq", rng.randrange(ncls)])
+        elif k < 0.85:
+            ops.append(["abandon", rng.randrange(ncls), rng.choice(["close", "drop", "break"])])
+        elif k < 0.89:
+            ops.append(["exc", rng.randrange(ncls), rng.choice(["handled_inside", "leaves_block"])])
         else:
             ops.append(["query", rng.choice(["main", "main", "out"]), rng.randrange(ncls)])
     ops.append(["query", "main", 0])
@@ -197,6 +201,65 @@ def check_case(case, ctx):
             if Counter(map(id, got)) != Counter(map(id, want)):
                 fail = {"what": "QUERY_WITH_PREDICATE", "class": cls.__name__, "expected": len(want), "observed": len(got)}
                 break
+        elif op[0] == "abandon":
+            # a query over the registry that is left after its first result: later constructions stay visible
+            cls = main[op[1]]
+            want = [o for o in log if isinstance(o, cls)]
+            with symbolic_mode():
+                q = an(entity(let(cls)))
+            if op[2] == "break":
+                for first in q.evaluate():
+                    break
+                else:
+                    first = None
+            else:
+                it = q.evaluate()
+                first = next(it, None)
+                if op[2] == "close":
+                    it.close()
+                else:
+                    del it
+            if (first is None) != (not want) or (want and not any(first is o for o in want)):
+                fail = {"what": "QUERY_FIRST_RESULT", "class": cls.__name__, "expected_any_of": len(want), "observed": repr(first)}
+                break
+            history.append(["abandon", cls.__name__, op[2], len(want)])
+        elif op[0] == "exc":
+            # an exception raised by an evaluation inside a symbolic block: the block stays symbolic if the exception is
+            # handled inside it, and the mode is off again if the exception leaves it
+            from entity_query_language import the
+            cls = main[op[1]]
+            if op[2] == "handled_inside":
+                with symbolic_mode():
+                    try:
+                        the(entity(let(cls, []))).evaluate()
+                        fail = {"what": "THE_OVER_NOTHING_DID_NOT_RAISE"}
+                    except Exception:
+                        pass
+                    before = Counter(counters)
+                    reg_before = {k: len(list(v.flat_cache)) for k, v in Variable._cache_.items()}
+                    s = cls()
+                if fail:
+                    break
+                reg_after = {k: len(list(v.flat_cache)) for k, v in Variable._cache_.items()}
+                if isinstance(s, cls) or not isinstance(s, SymbolicExpression) or counters != before or \
+                        {k: v for k, v in reg_after.items() if v} != {k: v for k, v in reg_before.items() if v}:
+                    fail = {"what": "BLOCK_NOT_SYMBOLIC_AFTER_HANDLED_EXCEPTION", "type": type(s).__name__,
+                            "init_ran": counters != before}
+                    break
+            else:
+                try:
+                    with symbolic_mode():
+                        the(entity(let(cls, []))).evaluate()
+                    fail = {"what": "THE_OVER_NOTHING_DID_NOT_RAISE"}
+                    break
+                except Exception:
+                    pass
+                o = cls(1)
+                if type(o) is not cls:
+                    fail = {"what": "CONSTRUCTION_SYMBOLIC_AFTER_EXCEPTION_LEFT_THE_BLOCK", "type": type(o).__name__}
+                    break
+                log.append(o)
+            history.append(["exc", cls.__name__, op[2]])
         elif op[0] == "iter":
             pool = [o for o in log if isinstance(o, main[0])][:4]
             if len(pool) >= 2:
